@@ -5,6 +5,7 @@ mod concretise;
 mod model;
 mod observe;
 mod project;
+mod reads;
 
 use apply::*;
 use concretise::IdStyle;
@@ -39,6 +40,14 @@ fn replay(input: &str, output: &str, style: IdStyle) -> std::io::Result<()> {
         nb += 1;
         let mut last_good: Option<(PState, Vec<PPos>)> = None;
         for op in ops.iter() {
+            if reads::READ_EVENTS.contains(&op.ev.as_str()) {
+                let (outcome, res, api) = reads::read(&ctx, op);
+                let ev = Event { ev: op.ev.clone(), a: op.a.clone(), outcome, res, projok: true, api, ..Default::default() };
+                serde_json::to_writer(&mut out, &ev)?;
+                out.write_all(b"\n")?;
+                nev += 1;
+                continue;
+            }
             let (outcome, res) = apply(&mut ctx, op);
             let proj = catch_unwind(AssertUnwindSafe(|| project::project(&ctx.store, style)));
             let (projok, post, pos) = match proj {
